@@ -419,6 +419,12 @@ Section Walk.
   Definition w_iterate_preceding (fuel : nat) (F : nfilter) (n : nid) : res (list nid) :=
     l <- prec_loop fuel n ;; Ok (filter F l).
 
+  (* fetch_following / fetch_preceding: the first item of the axis iterator, None on StopIteration *)
+  Definition w_fetch_following (fuel : nat) (D F : nfilter) (n : nid) : res (option nid) :=
+    l <- w_iterate_following fuel D F n ;; Ok (hd_error l).
+  Definition w_fetch_preceding (fuel : nat) (F : nfilter) (n : nid) : res (option nid) :=
+    l <- w_iterate_preceding fuel F n ;; Ok (hd_error l).
+
   (* full_text *)
   Definition w_full_text (fuel : nat) (D : nfilter) (n : nid) : res str :=
     if is_tag n then l <- w_iterate_descendants fuel D ftrue n ;;
@@ -501,6 +507,8 @@ Section OnHeap.
   Definition h_depth (D : nfilter) := w_depth PA TG TX fu.
   Definition h_iterate_following := w_iterate_following FR NX PA TG fu fu.
   Definition h_iterate_preceding (D : nfilter) := w_iterate_preceding FR NX PV PA TG fu fu.     (* D: not consulted *)
+  Definition h_fetch_following := w_fetch_following FR NX PA TG fu fu.
+  Definition h_fetch_preceding (D : nfilter) := w_fetch_preceding FR NX PV PA TG fu fu.
   Definition h_full_text := w_full_text FR NX TG TX CT fu fu.
   Definition h_traverse_bf := w_traverse_bf FR NX TG fu fu.
   Definition h_traverse_df_btt := w_traverse_df_btt FR NX TG fu fu.
@@ -527,6 +535,8 @@ Definition c_iterate_ancestors (e : cel) := h_iterate_ancestors (heap_top e).
 Definition c_depth (e : cel) := h_depth (heap_top e).
 Definition c_iterate_following (e : cel) := h_iterate_following (heap_top e).
 Definition c_iterate_preceding (e : cel) := h_iterate_preceding (heap_top e).
+Definition c_fetch_following (e : cel) := h_fetch_following (heap_top e).
+Definition c_fetch_preceding (e : cel) := h_fetch_preceding (heap_top e).
 Definition c_full_text (e : cel) := h_full_text (heap_top e).
 Definition c_traverse_bf (e : cel) := h_traverse_bf (heap_top e).
 Definition c_traverse_df_btt (e : cel) := h_traverse_df_btt (heap_top e).
